@@ -61,6 +61,10 @@ func (p *Prog) reachableFuncs(roots ...*ssa.Function) []*ssa.Function {
 
 // byteRootKind classifies where a []byte / string value ultimately comes from.
 func (c *Ctx) byteRootKinds(v ssa.Value, self *types.Var) map[string][]string {
+	return c.byteRootKindsDepth(v, self, 0)
+}
+
+func (c *Ctx) byteRootKindsDepth(v ssa.Value, self *types.Var, depth int) map[string][]string {
 	p := c.P
 	readBuf := p.Method(pkgCodec, "Buffer", "ReadBuf")
 	kinds := map[string][]string{}
@@ -71,6 +75,8 @@ func (c *Ctx) byteRootKinds(v ssa.Value, self *types.Var) map[string][]string {
 			return call.Call.Args
 		case "(rcproxy/core/codec.Error).Bytes", "(rcproxy/core/codec.Status).Bytes", "(rcproxy/core/codec.Error).String", "(rcproxy/core/codec.Status).String":
 			return call.Call.Args
+		case "strconv.AppendInt", "strconv.AppendUint":
+			return call.Call.Args[:1] // dst with decimal digits appended
 		}
 		// a pure module helper (e.g. an extracted "append this encoded" function): its result is made of its arguments
 		if f := call.Call.StaticCallee(); f != nil && p.inlinable(f) && p.isPure(f, 0) {
@@ -115,6 +121,38 @@ func (c *Ctx) byteRootKinds(v ssa.Value, self *types.Var) map[string][]string {
 			k = "extract:" + expr(x)
 		case *ssa.Parameter:
 			k = "param:" + x.Name()
+			// a parameter of a helper stands for what its call sites pass
+			if h := x.Parent(); depth < 3 && p.isHelper(h) {
+				idx := -1
+				for i, prm := range h.Params {
+					if prm == x {
+						idx = i
+					}
+				}
+				sites := p.helperSites(h)
+				resolved := idx >= 0 && len(sites) > 0
+				sub := map[string][]string{}
+				for _, s := range sites {
+					if s.Call == nil || idx >= len(s.Call.Args) {
+						resolved = false
+						break
+					}
+					saved := paramBind[x]
+					delete(paramBind, x)
+					for kk, vv := range c.byteRootKindsDepth(s.Call.Args[idx], self, depth+1) {
+						sub[kk] = append(sub[kk], vv...)
+					}
+					if saved != nil {
+						paramBind[x] = saved
+					}
+				}
+				if resolved {
+					for kk, vv := range sub {
+						kinds[kk] = append(kinds[kk], vv...)
+					}
+					continue
+				}
+			}
 		case *ssa.Lookup, *ssa.Index:
 			k = "elem:" + expr(r)
 		}
@@ -515,8 +553,8 @@ func ruleC02_5(c *Ctx) {
 		data := fn.Params[1]
 		c.check(strip(sys.Call.Args[1]) == ssa.Value(data), shortFn(fn)+": syscall writes the input", c.at(sys), "unix.Write(fd, data)", "the socket write is not given the function's input slice: "+expr(sys.Call.Args[1]))
 		nspill := 0
-		for _, bw := range p.callsIn(fn, bufWrite) {
-			arg := bw.Common().Args[1]
+		p.virtualCalls(fn, []*ssa.Function{bufWrite}, func(bw ssa.CallInstruction) {
+			arg := strip(bw.Common().Args[1])
 			name := fmt.Sprintf("%s: spill #%d", shortFn(fn), nspill+1)
 			nspill++
 			if strip(arg) == ssa.Value(data) {
@@ -531,7 +569,7 @@ func ruleC02_5(c *Ctx) {
 				}
 				c.check(!partial, name+" (whole input)", c.at(bw), "whole input buffered where nothing was sent",
 					"the whole input is buffered on a path where the socket write succeeded: the client receives the sent prefix twice")
-				continue
+				return
 			}
 			sl, ok := arg.(*ssa.Slice)
 			okS := ok && strip(sl.X) == ssa.Value(data) && sl.High == nil && sl.Low != nil
@@ -550,7 +588,7 @@ func ruleC02_5(c *Ctx) {
 			}
 			c.check(okS && okG, name+" (unsent suffix)", c.at(bw), "buffers data[sent:] on sent < len(data)",
 				"after a partial write the bytes buffered for later are "+expr(arg)+" (guards "+strings.Join(guardStrings(guardsOf(bw)), " && ")+") instead of data[sent:] on sent < len(data): a slow reader receives a reply with a hole or a repeat", withGuards(guardsOf(bw)))
-		}
+		})
 		c.check(nspill >= 2, shortFn(fn)+": spill paths", p.pos(fn.Pos()), fmt.Sprintf("%d buffer writes", nspill), "the EAGAIN and the partial-write spill paths are not both present: unsent bytes would be dropped")
 	}
 
